@@ -100,12 +100,8 @@ pub fn parse(pasted: &[PastedLine]) -> RefProgram {
                 ".word" | ".byte" | ".asciz" | ".ascii" | ".string" | ".space" | ".align" | ".half" => {}
                 _ => p.unrecognised.push(t.to_string()),
             }
-            // data labels name no instruction
-            if !in_text || d != ".text" {
-                if !in_text {
-                    pending.clear();
-                }
-            }
+            // like the analyzer, labels (also those written in a data block) name the next
+            // instruction; nothing jumps to a data label, so keeping them is harmless here
             continue;
         }
         let (mn, rest) = t.split_once(char::is_whitespace).unwrap_or((t, ""));
